@@ -16,7 +16,7 @@ import (
 
 // StepKinds is the vocabulary of histories.
 var StepKinds = []string{
-	"p-boot", "p-call", "p-pcall", "p-finish", "p-release", "p-return", "p-forward", "p-echo", "p-pause", "p-wait-impl", "p-sync", "open",
+	"p-boot", "p-call", "p-pcall", "p-finish", "p-release", "p-return", "p-forward", "p-echo", "p-pause", "p-wait-impl", "p-sync", "p-disembargo", "open",
 	"a-boot", "a-call", "a-pcall", "a-getcap", "a-cancel", "a-release-client", "a-release-answer",
 }
 
@@ -190,6 +190,50 @@ func (e *engine) step(s Step) (bool, error) {
 			e.stats["pcalls-on-pending"]++
 		}
 		e.sendCall(q, rpcsim.Target{Answer: true, ID: dep.id, Transform: path}, s.C%8)
+	case "p-disembargo":
+		// B pipelined on one of its questions and A's Return names one of B's own capabilities at that path: B asks A
+		// to flush (Disembargo senderLoopback on the promised answer); A must echo after the calls it forwarded.
+		type cand struct {
+			q    *bq
+			path []uint16
+			bid  uint32
+		}
+		var cands []cand
+		for _, q := range e.allB {
+			if !q.returned || q.finished || q.ret.RetKind != "results" || e.bqs[q.id] != q {
+				continue
+			}
+			for i, ci := range q.ret.PtrCaps {
+				if ci < 0 || ci >= len(q.ret.Caps) || q.ret.Caps[ci].Kind != "receiverHosted" {
+					continue
+				}
+				path := []uint16{uint16(i)}
+				used, already := false, false
+				for _, d := range e.allB {
+					if d.kind == "pcall" && d.dep == q && samePath(d.path, path) {
+						used = true
+					}
+				}
+				for _, pe := range e.peerEmbargoes {
+					if pe.q == q && samePath(pe.path, path) {
+						already = true
+					}
+				}
+				if used && !already {
+					cands = append(cands, cand{q, path, q.ret.Caps[ci].ID})
+				}
+			}
+		}
+		if len(cands) == 0 {
+			return false, nil
+		}
+		c := cands[s.A%len(cands)]
+		pe := &peerEmbargo{q: c.q, path: c.path, bid: c.bid, id: uint32(len(e.peerEmbargoes)) + 7, sentIdx: e.sentIdx}
+		e.sentIdx++
+		e.peerEmbargoes = append(e.peerEmbargoes, pe)
+		e.stats["peer-disembargoes"]++
+		e.logf("B->A Disembargo(senderLoopback %d, promisedAnswer %d %v)", pe.id, c.q.id, c.path)
+		e.w.SendDisembargo(rpcsim.Target{Answer: true, ID: c.q.id, Transform: c.path}, "senderLoopback", pe.id)
 	case "p-wait-impl":
 		// the peer waits until the implementations whose gates were opened have returned (the moment their answers'
 		// queues are replayed), without waiting for A's messages
